@@ -2,9 +2,11 @@ package dsim
 
 import (
 	"context"
+
 	"crypto/sha256"
 	"encoding/hex"
 	"fmt"
+	"github.com/aptpod/iscp-go/iscp"
 	"runtime"
 	"runtime/debug"
 	"sort"
@@ -54,17 +56,17 @@ type Op struct {
 	ctx     context.Context
 	cancel  context.CancelFunc
 
-	Invoke   int64
-	Return   int64
-	InvokeT  time.Duration
-	ReturnT  time.Duration
-	CancelT  time.Duration // when the scheduler cancelled it (cancel kind), -1 otherwise
-	done     bool
-	Res      any
-	Err      error
-	Panic    string
-	Meta     any
-	OnDone   func(op *Op)
+	Invoke    int64
+	Return    int64
+	InvokeT   time.Duration
+	ReturnT   time.Duration
+	CancelT   time.Duration // when the scheduler cancelled it (cancel kind), -1 otherwise
+	done      bool
+	Res       any
+	Err       error
+	Panic     string
+	Meta      any
+	OnDone    func(op *Op)
 	harvested bool
 }
 
@@ -111,6 +113,9 @@ type Sim struct {
 	Phase int  // multi-phase scenarios: index of the current bubble
 	Again bool // set by the scenario to request another phase
 	Carry any  // state carried across phases
+
+	BurstMax  int // >0: burst stepping
+	burstLeft int
 
 	yieldSeed    uint64
 	yieldDensity int // per 1000
@@ -328,6 +333,10 @@ func resString(v any) string {
 	switch t := v.(type) {
 	case nil:
 		return "-"
+	case *iscp.Upstream:
+		return fmt.Sprintf("up %x", t.ID[12:])
+	case *iscp.Downstream:
+		return fmt.Sprintf("down %x", t.ID[12:])
 	case string:
 		return t
 	case fmt.Stringer:
@@ -352,6 +361,15 @@ func (s *Sim) Step(acts []Action) bool {
 		s.Logf("step %d: %s", s.steps, acts[i].Name)
 	}
 	acts[i].Do()
+	if s.BurstMax > 0 {
+		// burst stepping (C09): several actions are issued back-to-back so that the goroutines
+		// serving them are not ordered by a quiescence point
+		if s.burstLeft > 0 {
+			s.burstLeft--
+			return true
+		}
+		s.burstLeft = s.T.Choose("burst", s.BurstMax+1)
+	}
 	synctest.Wait()
 	s.Harvest()
 	return true
@@ -460,15 +478,24 @@ func (s *Sim) runBubble(t *testing.T, fn scenarioFunc, res *RunResult) {
 			}
 		}
 	}()
-	synctest.Test(t, func(t *testing.T) {
-		s.start = time.Now()
-		defer func() {
-			if r := recover(); r != nil {
-				s.HarnessError("scenario panic: %v\n%s", r, debug.Stack())
-			}
-		}()
-		fn(s)
-	})
+	// synctest.Test calls t.FailNow (runtime.Goexit) when the bubble's test failed, which is what
+	// the race detector causes; run it on a helper goroutine so that only that goroutine ends.
+	done := make(chan any, 1)
+	go func() {
+		defer func() { done <- recover() }()
+		synctest.Test(t, func(t *testing.T) {
+			s.start = time.Now()
+			defer func() {
+				if r := recover(); r != nil {
+					s.HarnessError("scenario panic: %v\n%s", r, debug.Stack())
+				}
+			}()
+			fn(s)
+		})
+	}()
+	if r := <-done; r != nil {
+		panic(r)
+	}
 }
 
 func (s *Sim) fill(res *RunResult) {
